@@ -664,7 +664,7 @@ func c01OpRun3(c *Case, rng *Rng, binds []c01Bind3, opt c01Opt3, x0 []c01Ev, inj
 	// rest: every binding has shown the sentinel object to the hook (a binding that stayed locked: has it
 	// in a buffer that nothing will ever replay), queues empty, nothing running
 	var execs []c01Exec3
-	stable := 0
+	stable, lost := 0, 0
 	deadline = time.Now().Add(60 * time.Second)
 	for {
 		if time.Now().After(deadline) {
@@ -711,9 +711,25 @@ func c01OpRun3(c *Case, rng *Rng, binds []c01Bind3, opt c01Opt3, x0 []c01Ev, inj
 		}
 		changed := len(ex) != len(execs)
 		execs = ex // always the latest reading: exit codes and end times of runs that were still going on
-		if !done || busy || !all || changed || (quiet && !cacheOk()) {
-			stable = 0
+		if !done || busy || changed || (quiet && !cacheOk()) {
+			stable, lost = 0, 0
 			continue
+		}
+		if !all {
+			// The sentinel has not been shown to some binding. Either it is still on its way — or it never
+			// will be: nothing runs, every queue is empty, the informers of every unlocked binding have
+			// cached it. A long quiet period in that state is taken as final (the oracles then say what is
+			// missing) instead of waiting for the watchdog.
+			stable = 0
+			if !cacheOk() {
+				lost = 0
+				continue
+			}
+			if lost++; lost < 400 {
+				continue
+			}
+			c.Note("op3:sentinel-never-shown")
+			break
 		}
 		stable++
 		need := 8
